@@ -154,6 +154,10 @@ namespace nmtools::view
         {
             auto indices_ = pack_indices(indices...);
             auto i = at(indices_,meta::ct_v<0>);
+            // the first element is start itself (with num == 1 and endpoint the step is not defined: division by zero)
+            if ((nm_size_t)i == 0) {
+                return static_cast<element_type>(start);
+            }
             return static_cast<element_type>(start) + (i * step);
         }
     }; // linspace_t
